@@ -5,7 +5,7 @@
    reference parser) and compared on the environment grid by the oracle, and the model computes the same structures
    (byte-identical text required). *)
 From Coq Require Import List Bool NArith String.
-From PC Require Import Base.Result Model.Generic Model.Marker Model.MarkerAlg Proofs.MarkerProofs Proofs.MarkerAlgProofs Proofs.StringClass.
+From PC Require Import Base.Result Model.Generic Model.Marker Model.MarkerAlg Proofs.MarkerProofs Proofs.MarkerAlgProofs Proofs.StringClass Proofs.ExtraClass.
 Import ListNotations.
 
 (* evaluation depends on the Boolean structure only *)
@@ -46,3 +46,8 @@ Theorem C13_normal_forms_string_markers : forall E fuel st m, G (SR E) m ->
   (forall r, cnf fuel st m = Ok r -> beval E r = beval E m /\ G (SR E) r) /\ (forall r, dnf fuel st m = Ok r -> beval E r = beval E m /\ G (SR E) r).
 Proof. exact string_normal_forms. Qed.
 Print Assumptions C13_normal_forms_string_markers.
+
+Theorem C13_normal_forms_string_extra_markers : forall E extras, e_extras E = Some extras -> forall fuel st m, G (BR E) m ->
+  (forall r, cnf fuel st m = Ok r -> beval E r = beval E m /\ G (BR E) r) /\ (forall r, dnf fuel st m = Ok r -> beval E r = beval E m /\ G (BR E) r).
+Proof. exact both_normal_forms. Qed.
+Print Assumptions C13_normal_forms_string_extra_markers.
